@@ -45,9 +45,10 @@ DropRepeatedSpecial(flat) ==
   SelectSeq(flat, LAMBDA e : e.k \notin SpecialKeys
                              \/ ~\E j \in DOMAIN flat : flat[j].k = e.k /\ flat[j].v > e.v)
 
-\* what the code answers when exactly the deviations in S are present
-ImplOutcome(s, flat0, S) ==
-  LET flat1  == IF D4 \in S THEN SelectSeq(flat0, LAMBDA e : ~e.fv) ELSE flat0
+\* what the code answers when exactly the deviations in S are present (c: the call, flat0 = Flat(c))
+ImplOutcome(s, c, flat0, S) ==
+  LET c1     == IF D4 \in S THEN SelectSeq(c, LAMBDA it : ~it.fv) ELSE c
+      flat1  == IF D4 \in S THEN SelectSeq(flat0, LAMBDA e : ~e.fv) ELSE flat0
       flat   == IF D3 \in S THEN DropRepeatedSpecial(flat1) ELSE flat1
       base   == BindDecl(s, flat)
       npos   == Len(SelectSeq(flat, LAMBDA e : e.k = ""))
@@ -55,7 +56,8 @@ ImplOutcome(s, flat0, S) ==
       reused == \E i \in DOMAIN s : s[i].k = "po" /\ i <= npos /\ Names[i] \in keys
       idx    == [i \in 1..Len(s) |-> i]
       again  == SelectSeq(idx, LAMBDA i : s[i].k = "po" /\ s[i].d /\ i > npos /\ Names[i] \notin keys)
-  IN  IF base.o # "ok" THEN base
+  IN  IF Run(s, c1).strict THEN TypeErr      \* positional after keyword: the code does reject it
+      ELSE IF base.o # "ok" THEN base
       ELSE IF D2 \in S /\ reused THEN TypeErr
       ELSE IF D1 \in S /\ Len(again) > 0
            THEN IF HasVk(s)
@@ -84,7 +86,7 @@ Deviations(s, c, st) ==
            want == Runtime(s, st)
            Kind(out) == IF out.o = "type" THEN "TypeError"
                         ELSE IF want.o = "ok" THEN "wrong-bindings" ELSE "accepted"
-           Pred(n) == ImplOutcome(s, flat, DevSets[n])
+           Pred(n) == ImplOutcome(s, c, flat, DevSets[n])
            cand == SelectSeq([n \in 1..Len(DevSets) |-> n], LAMBDA n : DevSets[n] \subseteq app)
            \* keep a set only if no earlier (smaller) one predicts the same answer
            live == SelectSeq(cand,
